@@ -454,9 +454,10 @@ def encodeDop : (fuel : Nat) → Dop → PVal → EncM Unit
       match sel with
       | none => raise .encode
       | some (key, st, content) => do
-        modifyS fun s' => { s' with origin := s.cursorByte, cursorByte := s.cursorByte + swBytePos, cursorBit := swBitPos.getD 0 }
-        encodeDop fuel swDop (.atom (.int key))
-        modifyS fun s' => { s' with cursorBit := 0, cursorByte := s.cursorByte + bytePos }
+        modifyS fun s' => { s' with origin := s.cursorByte }
+        -- the switch key is placed like a VALUE parameter at (BYTE-POSITION, BIT-POSITION) relative to the multiplexer
+        encodeParam fuel (.mk "" (some swBytePos) swBitPos (.value swDop none)) (some (.atom (.int key)))
+        modifyS fun s' => { s' with cursorByte := s.cursorByte + bytePos }
         match st with
         | some d => encodeDop fuel d content
         | none =>
